@@ -3,7 +3,9 @@ package main
 import (
 	"fmt"
 	"go/types"
+	"regexp"
 	"sort"
+	"strconv"
 	"strings"
 )
 
@@ -23,6 +25,8 @@ const prelude = `(set-logic ALL)
 (declare-datatypes ((Str 0)) (((snil) (scons (shd Int) (stl Str)))))
 (declare-datatypes ((Slice 0)) (((mk-slice (sarr Int) (soff Int) (slen Int) (scap Int)))))
 (declare-datatypes ((Any 0)) (((ANil) (AInt (atag Int) (aint Int)) (AF64 (ftag Int) (af64 F64)) (AStr (stag Int) (astr Str)) (ABool (btag Int) (abool Bool)) (ARef (rtag Int) (aref Int)) (AOpq (otag Int) (aopq Int)))))
+(declare-fun idx (Slice Int) Int)
+(assert (forall ((s Slice) (j Int)) (! (= (idx s j) (+ (soff s) j)) :pattern ((idx s j)))))
 (define-fun tagof ((a Any)) Int (ite ((_ is AInt) a) (atag a) (ite ((_ is AF64) a) (ftag a) (ite ((_ is AStr) a) (stag a) (ite ((_ is ABool) a) (btag a) (ite ((_ is ARef) a) (rtag a) (ite ((_ is AOpq) a) (otag a) 0)))))))
 `
 
@@ -350,4 +354,40 @@ func store(a, i, v string) string   { return "(store " + a + " " + i + " " + v +
 func eq(a, b string) string         { return "(= " + a + " " + b + ")" }
 func app(f string, args ...string) string {
 	return "(" + f + " " + strings.Join(args, " ") + ")"
+}
+
+// litSliceRe matches a slice term over a whole freshly built array: (mk-slice <arr> <off> <len> <cap>) with literal bounds.
+var litSliceRe = regexp.MustCompile(`^\(mk-slice (\|[^|]*\||[A-Za-z0-9_.!]+) (\d+) (\d+) (\d+)\)$`)
+
+func isIntLit(s string) (int64, bool) {
+	n, err := strconv.ParseInt(s, 10, 64)
+	return n, err == nil
+}
+
+// subT / addT build arithmetic terms, folding integer literals.
+func subT(a, b string) string {
+	if x, ok := isIntLit(a); ok {
+		if y, ok := isIntLit(b); ok {
+			return intLit(x - y)
+		}
+	}
+	if b == "0" {
+		return a
+	}
+	return "(- " + a + " " + b + ")"
+}
+
+func addT(a, b string) string {
+	if x, ok := isIntLit(a); ok {
+		if y, ok := isIntLit(b); ok {
+			return intLit(x + y)
+		}
+	}
+	if b == "0" {
+		return a
+	}
+	if a == "0" {
+		return b
+	}
+	return "(+ " + a + " " + b + ")"
 }
